@@ -86,7 +86,7 @@ def run(c):
     outcome("log_header", "log_header", True, 1 if lh.get("panic") else 0, detail={"calls": n})
     c.extra["log_header_calls"] = n
     # 3. hostile inputs into the real server and clients
-    d0 = os.path.join(util.BUILD, "run", "c13_rig")
+    d0 = os.path.join(util.RUNDIR, "c13_rig")
     steps = [{"op": "set_key", "guid": proxylib.GUID, "key": proxylib.KEYHEX}]
     exe_src = shutil.which("sleep")
     plans = []
